@@ -22,7 +22,7 @@ import tempfile
 import hashlib
 
 from . import sym
-from .sym import (SInt, SBool, SBuf, Unsupported, PathEnd, EngineError, mk_int, mk_bool,
+from .sym import (SInt, SBool, SBuf, Unsupported, PathEnd, PathDone, EngineError, mk_int, mk_bool,
                   zint, zbool, z3)
 
 
@@ -169,6 +169,8 @@ class Engine(object):
                 self.paths += 1
                 try:
                     task(self, *args, **kwargs)
+                    self._finish_path()
+                except PathDone:
                     self._finish_path()
                 except PathEnd:
                     self.infeasible_paths += 1
